@@ -225,6 +225,15 @@ def run(ctx):
         # the walk steps along ->next
         steps = [s for s in paths.stores(f) if s["kind"] == "DeclRef" and s["path"] == "entry" and s["rhs"] is not None and f.canon(s["rhs"], subst=False) == "entry->next" and f.enclosing(s["node"], ("While", "For", "Do")) is not None]
         ctx.check(r6, len(steps) == 2, key(f, "walk"), f.where(f.root), "bucket walk does not step along entry->next in both modes")
+        # the two mode branches are the same walk: same stores in the same order
+        loops = [w for w in f.find("While") if any(f.nodes[c].get("callee", "").startswith("keycmp_") for c in f.calls(None, root=w))]
+        bodies = []
+        for w in loops:
+            body = f.ch(w)[1]
+            bodies.append([(s_["path"], s_["op"], f.canon(s_["rhs"], subst=False) if s_["rhs"] is not None else "") for s_ in paths.stores(f, body)])
+        ctx.check(r6, len(bodies) == 2 and bodies[0] == bodies[1], key(f, "mode-twins"), f.where(f.root), "the case-sensitive and case-insensitive walks differ: %s vs %s" % (bodies[0] if bodies else None, bodies[1] if len(bodies) > 1 else None))
+        if f is delete and len(bodies) == 2:
+            ctx.check(r6, bodies[0] == [("prev", "=", "entry"), ("entry", "=", "entry->next")], key(f, "prev-trails"), f.where(f.root), "`prev` does not trail `entry` along the chain (%s): a chained entry would be deleted as if it were the head" % bodies[0])
         # empty bucket test first
         first = [r for r in f.find("Return") if paths.guarded(f, r, lambda fn, cc, pol: paths.cond_atoms(fn, cc, pol, subst=False) == ("entry->key", False))]
         ctx.check(r6, len(first) >= 1, key(f, "empty-bucket"), f.where(f.root), "no early return for an empty bucket (key == NULL)")
